@@ -572,7 +572,7 @@ def run(ctx):
     ctx.notes.append('the 512-step quantised cosine table of the model was compared with numpy over its whole index range')
 
     # ---- (a1) get_next_imf_mask, toy mode
-    ngni = 100 if quick else 900
+    ngni = 100 if quick else 1200
     cases = [gen_toy_gni_case(ctx.rng) for _ in range(ngni)]
     mo = ctx.model_outputs(IMPORTS, [lit_gni(c) for c in cases], EXPR_GNI, shard=60 if quick else 150)
     pool_cases = []
@@ -612,7 +612,7 @@ def run(ctx):
                 bad.append(('model pool', dict(kind='toy-gni', case=list(case), nprocesses=1), exp, got))
 
     # ---- (a2) mask_sift, toy mode
-    nms = 80 if quick else 500
+    nms = 80 if quick else 800
     cases = [gen_toy_ms_case(ctx.rng) for _ in range(nms)]
     mo = ctx.model_outputs(IMPORTS, [lit_ms(c) for c in cases], EXPR_MS, shard=50 if quick else 120)
     for case, exp in zip(cases, mo):
@@ -638,7 +638,7 @@ def run(ctx):
                 bad.append(('mask_sift', inp, got, exp))
 
     # ---- (b), (d) and the oracle: get_next_imf_mask on real numerics
-    nreal = 40 if quick else 200
+    nreal = 40 if quick else 320
     sigs = siftcore.real_signals(ctx.seed + 7, nreal, 32, 160)
     for i, (fam, x) in enumerate(sigs):
         imf_opts = siftcore.real_opts(ctx.rng)[0]
@@ -660,7 +660,7 @@ def run(ctx):
 
     # ---- (c), (d) and the oracle: mask_sift on real numerics
     combos = [(s, m, arr) for s in ('zc', 'if', 'float', 'list') for m in ('abs', 'ratio_sig', 'ratio_imf') for arr in (False, True)]
-    reps = 1 if quick else 2
+    reps = 1 if quick else 3
     sigs = siftcore.real_signals(ctx.seed + 11, len(combos) * reps + 8, 48, 200)
     sigs = [s for s in sigs if s[0] not in ('const-ramp',)][:len(combos) * reps]
     for i, (fam, x) in enumerate(sigs):
